@@ -20,18 +20,17 @@ theorem OffT.setRec (w : World) (f : Nat) (r : Rec) : OffT f w (setRec w f r) :=
 /-- `isDirty` found the file of a generated target missing: it forgets that it was generated. -/
 theorem Inv_vanished {rank R w f} (hi : Inv rank R X w) (hf : (w.recs f).failed = none)
     (hs : (w.recs f).stamp ≠ some (readStamp w f)) :
-    Inv rank R X (setRec w f { w.recs f with isGenerated := false, failed := some 0 }) := by
+    Inv rank R X (setRec w f { w.recs f with isGenerated := false, isOverride := false, failed := some 0 }) := by
   have hnv : ¬ VerR w R f := fun hv => hs (hi.ver f hv).1.2.2
   have hng : ¬ Good w R f := fun hg => hs (hg.recCur hi).2.2
   have o := hi.base.recOk f
-  have hoff := OffT.setRec w f { w.recs f with isGenerated := false, failed := some 0 }
+  have hoff := OffT.setRec w f { w.recs f with isGenerated := false, isOverride := false, failed := some 0 }
   refine ⟨Base_upd hi.base hoff ?_ (fun _ _ h => h) hi.base.rowsLt hi.base.cPlain
     (hdet_quiet rfl (by simp) (by simp) (fun h => absurd hf h.1)) ?_, hi.Rpos, Ver_upd hi hoff hng ?_⟩
   · refine ⟨?_, ?_, ?_, ?_, ?_, ?_, ?_, ?_, ?_, ?_, ?_, ?_, ?_, ?_⟩ <;> simp only [setRec_recs_self, setRec_fs, setRec_rules, setRec_clock]
     · exact o.chLe
     · exact o.ckLe
     · exact o.noCsum
-    · exact o.noOvr
     · exact fun _ => trivial
     · exact fun _ => Or.inl (by simp)
     · exact o.stampCh
